@@ -325,11 +325,74 @@ def ex_expect(argv, run):
     return {"alternatives": mx.expected(argv, heap_mb << 20, run["exe"][1])}
 
 
+def c13_real_thread_batch(tier):
+    """Stack exhaustion on REAL thread stacks (the simulator's coroutine stacks are 4 MiB):
+    real executables (baseline generator) recurse with ~320 KiB and ~8 KiB frames on the main
+    and on a spawned thread, starting at a seeded number of small padding frames so that the
+    frame that crosses the limit starts at many different offsets."""
+    import subprocess
+    exes = tb.build_executables(["bigframe"], ["swiper", "copy"], ["cannon"], sim=False, real=True)
+    s = seed()
+    rng = tb.stream(s, "C13", 0, "bigframe")
+    n = 160 if tier == "quick" else 1500
+    cases = []
+    for i in range(n):
+        cases.append((rng.choice(["swiper", "copy"]), rng.choice([0, 1, 1]), rng.choice([7, 7, 8]), rng.randrange(0, 600)))
+
+    def one(c):
+        gc, where, shape, pad = c
+        exe = exes[("bigframe", gc, "cannon", "real")]
+        try:
+            p = subprocess.run([exe, str(where), str(shape), str(pad)], stdout=subprocess.PIPE, stderr=subprocess.PIPE, timeout=120)
+            rc, out, err = p.returncode, p.stdout.decode(errors="replace"), p.stderr.decode(errors="replace")
+        except subprocess.TimeoutExpired:
+            return c, ("timeout", "no termination")
+        first = err.splitlines()[0] if err.strip() else ""
+        if rc == 107 and out == "start\n" and first == "stack overflow":
+            return c, None
+        if rc < 0:
+            return c, ("signal:%d" % -rc, "recursion with frame shape %d at padding %d on %s died with signal %d instead of the stack-overflow trap" % (shape, pad, "a spawned thread" if where else "the main thread", -rc))
+        return c, ("exit:%d" % rc, "stdout %r stderr %r" % (out[:40], first[:60]))
+
+    from concurrent.futures import ThreadPoolExecutor
+    vio = []
+    with ThreadPoolExecutor(JOBS) as ex:
+        for c, v in ex.map(one, cases):
+            if v is not None:
+                vio.append((c, v))
+    return len(cases), vio
+
+
 def c13(tier):
-    return run_tier_b_property(
+    t0 = time.time()
+    b = run_tier_b_property(
         "C13", tier, quick_s=60, thorough_s=1200, drivers=["exhaust"], collectors=["zero", "copy", "sweep", "swiper"], codegens=["cannon", "boots"],
-        make_run=ex_run, shrink=ex_shrink, expect_fn=ex_expect, key_fn=ex_key,
+        make_run=ex_run, shrink=ex_shrink, expect_fn=ex_expect, key_fn=ex_key, write=False,
         level_text="seeded search over exhaustion scripts (single requests with boundary lengths x element sizes, retain-until-OOM, unbounded recursion with 7 frame shapes, churn with a small live set) on main or a spawned thread with 0-4 bystander threads x collector x code generator x heap size x schedule x injected collections; oracle = documented trap (status + first stderr line) or the normal result, stdout delivered before the trap, never a signal / Rust panic / deadlock / step-budget overrun")
+    exit_code, cov, reported = b
+    n, vio = c13_real_thread_batch(tier)
+    seen = set()
+    for c, v in vio:
+        key = "bigframe:%s:%s" % ("thread" if c[1] else "main", v[0])
+        if key in seen:
+            continue
+        seen.add(key)
+        rp = save_replay("C13", {"property": "C13", "tier": "C", "case": {"gc": c[0], "where": c[1], "shape": c[2], "pad": c[3], "argv": [c[1], c[2], c[3]], "driver": "bigframe"},
+                                 "violation_class": v[0], "violation": v[1], "occurrences": sum(1 for x in vio if x[1][0] == v[0])})
+        k = match_known("C13", key)
+        if k:
+            report_known("C13", k["what"])
+        else:
+            report_violation("C13", rp)
+            log("  class=%s detail=%s" % v)
+            exit_code = 1
+        reported.append({"class": v[0], "detail": v[1], "replay": rp, "key": key})
+    cov["evaluations"] += n
+    cov["distinct_nontrivial"] += len(set(c for c, v in [(c, None) for c in []])) + (n - len(vio))
+    cov["real_thread_stack_batch"] = {"runs": n, "violations": len(vio), "what": "real executables (baseline generator) recursing with ~320 KiB / ~8 KiB frames on main and spawned threads, padding 0..599 small frames"}
+    cov["violations_reported"] = reported
+    write_evidence("C13", tier, "exploration", cov, time.time() - t0, len(reported), ASSUME_B + ["the real-thread batch runs outside the simulator: single recursing thread, no schedule to control"])
+    return exit_code
 
 
 def ex_key(run, v):
